@@ -62,6 +62,12 @@ def main(argv):
                     combos.append((body, enc, cookie, bom, nl, sb, None))
     for sb, tag in KNOWN:
         combos.append((BODIES[0], 'latin-1', 'latin-1', False, '\n', sb, tag))
+    # dense non-ASCII text: the UTF-8 result is longer than the legacy-encoded source, so the command line tool passes the source through
+    dense = []
+    for enc, cookie, ch in (('latin-1', 'latin-1', '\xe9'), ('cp1252', 'cp1252', '\u20ac'), ('koi8-r', 'koi8-r', '\u0436'), ('iso8859-15', 'iso8859-15', '\u20ac')):
+        for sb in (None, '#!/usr/bin/python'):
+            dense.append(("s='%s'\nprint(s)\n" % (ch * 60), enc, cookie, False, '\n', sb, None))
+    combos += dense
     n_cli = 0
     for body, enc, cookie, bom, nl, sb, tag in combos:
         text, raw = build(body, enc, cookie, bom, nl, sb)
@@ -110,7 +116,8 @@ def main(argv):
                 except Exception as e:
                     fails.append(dict(label, failure='minify(text) raised %s' % type(e).__name__, preserve_shebang=preserve))
                     continue
-            if cli and preserve and nl == '\n' and n_cli < 60 and (sb in (None, '#!/usr/bin/python') or tag):
+            is_dense = (body, enc, cookie, bom, nl, sb, None) in dense
+            if cli and preserve and nl == '\n' and (n_cli < 60 or is_dense) and (sb in (None, '#!/usr/bin/python') or tag):
                 n_cli += 1
                 p = os.path.join(tmp, 'm.py')
                 with open(p, 'wb') as f:
@@ -123,6 +130,15 @@ def main(argv):
                 if r.returncode != 0 or r.stdout != exp:
                     fails.append(dict(label, failure='CLI wrote %d bytes, expected %s (%d bytes)' % (len(r.stdout), 'the UTF-8 API result' if exp is not raw else
                                                                                                      'the untouched source', len(exp)), preserve_shebang=preserve))
+                    continue
+                if is_dense and exp is not raw:
+                    fails.append(dict(label, failure='harness: the dense program was expected to be passed through', preserve_shebang=preserve))
+                try:
+                    d2 = astlib.strict_equal(want, ast.parse(r.stdout))
+                except Exception as e:
+                    d2 = 'does not parse: %s' % type(e).__name__
+                if d2 and not tag:
+                    fails.append(dict(label, failure='the bytes written by the command line tool denote a different program: %s' % d2, preserve_shebang=preserve))
     import shutil
     shutil.rmtree(tmp, ignore_errors=True)
     # new (unclassified) failures first, then one representative per known mechanism
